@@ -26,11 +26,26 @@ def _name_of(op, extra):
     return "op%d" % op
 
 
+def _unit(d, u):
+    """the self-delimiting unit at the head of a registered valid input: its first N octets, N being
+    the length the unit itself declares (a registry entry may carry more, e.g. a whole PDU for the
+    file-directive base decoder, which only reads header + directive code)"""
+    u = list(u)
+    if d["declared_len"]:
+        try:
+            n = d["declared_len"](u)
+        except Exception:
+            n = None
+        if n is not None and 0 < n < len(u):
+            return u[:n]
+    return u
+
+
 def streams(tier, rng):
     big = tier == "thorough"
     for d in xcut.all_decoders():
         op, extra, name = d["op"], d["extra"], d["name"]
-        units = d["valid"](rng)
+        units = [_unit(d, u) for u in d["valid"](rng)]
         if not big:
             units = units[:12]
         trunc, subst, garbage = [], [], []
